@@ -120,9 +120,25 @@ def execute(sched: dict) -> dict:
     }
 
 
+def _private_tmp():
+    """Runs of zygote classes 1 and 3 get a temp directory of their own; classes 0 and 2 share the invocation's.
+    Files a library leaves in the temp directory are shared state of the simulated fleet: a key fitted with and
+    without that shared state must agree."""
+    import tempfile
+
+    if int(os.environ.get("VERIF_WARM_VARIANT", "0")) % 2 == 1:
+        d = tempfile.mkdtemp(prefix="run-", dir=os.environ.get("TMPDIR") or None)
+        os.environ["TMPDIR"] = d
+        tempfile.tempdir = None
+        return d
+    return None
+
+
 def _child(sched, wfd):
+    private = None
     try:
         faulthandler.enable()
+        private = _private_tmp()
         faulthandler.dump_traceback_later(RUN_TIMEOUT - 5, exit=True)
         rec = execute(sched)
         data = pickle.dumps(rec)
@@ -132,6 +148,10 @@ def _child(sched, wfd):
     try:
         with os.fdopen(wfd, "wb") as f:
             f.write(data)
+        if private:
+            import shutil
+
+            shutil.rmtree(private, ignore_errors=True)
     finally:
         os._exit(0)
 
